@@ -365,9 +365,9 @@ theorem sdLoop_logOK (o : Opt) (sc : Sched) :
         · exact hc
         · rename_i src _ _ _
           have := sbiLoop_logOK o (k + 1)
-            (((orderFor sc.becomeIdle (k + 1)).filter src.scraping.keys.contains).eraseDups) c picks hc
+            (uniq ((orderFor sc.becomeIdle (k + 1)).filter src.scraping.keys.contains)) c picks hc
           generalize sbiLoop o (k + 1)
-            (((orderFor sc.becomeIdle (k + 1)).filter src.scraping.keys.contains).eraseDups) c picks = r at this
+            (uniq ((orderFor sc.becomeIdle (k + 1)).filter src.scraping.keys.contains)) c picks = r at this
           obtain ⟨c', picks', ok⟩ := r
           simp only at this ⊢
           split
